@@ -75,6 +75,7 @@ def run_checks(sd, checks, tier="quick"):
             print(c, "exit", r.returncode, *[("\n   " + l[:200]) for l in lines[:4]])
     finally:
         shutil.rmtree(d, ignore_errors=True)
+        shutil.rmtree(os.path.join(V, ".work", "scratch", os.path.basename(d)), ignore_errors=True)      # traces of the scratch run
     # the evidence files were rewritten against the copy: restore by re-running is the caller's business; mark them
     return res
 
